@@ -153,6 +153,46 @@ def zoomGlue (fl : α → Int) (order : Nat) (m : Mode) (cval : α) (im : Img α
   zoomShift fl order m cval im (oshape.map fun _ => none)
     ((im.shape.zip oshape).map fun io => some (zoomFactor io.1 io.2)) oshape
 
+/-! ### `resize.py` (the wrappers around `zoom`)
+
+`pre` stands for `_maybe_filter` (`spline_filter` for `order > 1`, the identity otherwise; the driver passes
+`splineFilter order`).  `none` = the wrapper raises `ValueError`. -/
+
+/-- `resize_to(im, nsize, order)`: `if len(nsize) != im.ndim: raise ValueError`;
+    `out = np.empty(nsize, dtype=im.dtype)`; `return zoom(im, nsize / im.shape, order=order, out=out)`.
+    With `out` given, `zoom` does not use the factors it is handed: it recomputes them from `out.shape`
+    (`zoomGlue`), with the defaults `mode='constant'`, `cval=0.0`. -/
+def resizeTo (fl : α → Int) (pre : Img α → Img α) (order : Nat) (im : Img α) (nsize : List Nat) : Option (Img α) :=
+  if nsize.length ≠ im.shape.length then none
+  else some (zoomGlue fl order .constant ((0 : Nat) : α) (pre im) nsize)
+
+/-- `imresize(img, nsize, order)` on its integer path (`nsize` a tuple or list whose first entry is a Python
+    `int`): `out = np.empty(nsize, dtype=np.float64)`; `nsize /= img.shape`; `return zoom(img, nsize, order=order, out=out)`
+    — the requested shape is passed as `out` (since `5b53411`; before, `int(s·(n/s))` could be `n − 1`).  A size of
+    the wrong length raises `ValueError` (from the in-place broadcast or from `zoom`'s own checks). -/
+def imresizeInt (fl : α → Int) (pre : Img α → Img α) (order : Nat) (img : Img α) (nsize : List Nat) : Option (Img α) :=
+  if nsize.length ≠ img.shape.length then none
+  else some (zoomGlue fl order .constant ((0 : Nat) : α) (pre img) nsize)
+
+/-- `im.transpose((2,0,1))[c]`: channel `c` of an `(h, w, k)` array as an `(h, w)` array -/
+def channel (im : Img α) (c : Nat) : Img α :=
+  Img.tabulate (im.shape.take 2) fun p => im.getD (p ++ [((c : Nat) : Int)]) ((0 : Nat) : α)
+
+/-- `np.dstack` of `(h, w)` arrays: an `(h, w, len)` array whose entry `(y, x, c)` is entry `(y, x)` of array `c` -/
+def dstack (hw : List Nat) (chs : List (Img α)) : Img α :=
+  Img.tabulate (hw ++ [chs.length]) fun p =>
+    match chs[(p.getD 2 0).toNat]? with
+    | some ch => ch.getD (p.take 2) ((0 : Nat) : α)
+    | none => ((0 : Nat) : α)
+
+/-- `resize_rgb_to(im, nsize, order)`: `_check_3(im)` (`im.ndim != 3 or im.shape[2] != 3` raises `ValueError`);
+    `np.dstack([resize_to(ch, nsize, order) for ch in im.transpose((2,0,1))])` -/
+def resizeRgbTo (fl : α → Int) (pre : Img α → Img α) (order : Nat) (im : Img α) (nsize : List Nat) : Option (Img α) :=
+  if im.shape.length ≠ 3 ∨ im.shape.getD 2 0 ≠ 3 then none
+  else
+    let chs := (List.range 3).filterMap fun c => resizeTo fl pre order (channel im c) nsize
+    if chs.length ≠ 3 then none else some (dstack nsize chs)
+
 /-! ### specification (the statement's words)
 
 Along one axis, for the coordinate `cc` an output index maps to:
@@ -319,6 +359,18 @@ def handle (a : Args) : String :=
     -- B-spline expansion of the given coefficients at the sample points
     let r := zoomShift flF order .mirror 0.0 im (shape.map fun _ => none) (shape.map fun _ => none) shape
     s!"spec={showFloats r.data.toList}"
+  | "rs" =>
+    -- the wrappers of `resize.py` on their explicit-shape path
+    let nsize := a.nats "nsize"
+    let r : Option (Img Float) :=
+      match a.str "name" with
+      | "resize_to" => resizeTo flF (splineFilter order) order im nsize
+      | "imresize" => imresizeInt flF (splineFilter order) order im nsize
+      | "resize_rgb_to" => resizeRgbTo flF (splineFilter order) order im nsize
+      | _ => none
+    match r with
+    | some o => s!"shape={showNats o.shape} model={showFloats o.data.toList}"
+    | none => "shape=none model=none"
   | "zs" =>
     match Mode.ofCode (a.nat "mode") with
     | none => "error=bad-mode"
